@@ -502,7 +502,13 @@ pub fn c06_unread_case(cap: usize, source: &str) -> Vec<Finding> {
     let mut waited = false;
     if source == "own-replies" || source == "both" {
         let names = format!("NAMES {}", vec!["#room"; 300].join(","));
-        waited |= m!(w.send_observe_block(0, &names));
+        // (one such line yields roughly 30 KB of replies: enough lines for the buffer at hand)
+        for _ in 0..(cap / 16384 + 2) {
+            waited |= m!(w.send_observe_block(0, &names));
+            if waited || w.conns[0].blocked {
+                break;
+            }
+        }
     }
     if source == "relays" || source == "both" {
         for _ in 0..60 {
